@@ -9,13 +9,16 @@ wt="/tmp/wt_confirm_${pid}_${i}"
 git -C /repo worktree add -q --detach "$wt" HEAD || exit 2
 trap 'git -C /repo worktree remove --force "$wt" >/dev/null 2>&1' EXIT
 cd "$wt"
-res_apply=ok; git apply "$src/patch.diff" 2>/tmp/apply_err_$$ || res_apply="FAIL: $(head -2 /tmp/apply_err_$$)"
+# 3-way apply (exact placement via the blob ids in the patch), then re-create the patch against the current HEAD
+res_apply=ok; git apply -3 "$src/patch.diff" >/tmp/apply_err_$$ 2>&1 || res_apply="FAIL: $(head -2 /tmp/apply_err_$$)"
+if [ "$res_apply" = ok ] && git diff --name-only --diff-filter=U | grep -q .; then res_apply="FAIL: conflicts"; fi
+if [ "$res_apply" = ok ]; then git reset -q; git diff HEAD -- src > /tmp/rebased_$$.diff; fi
 rm -f /tmp/apply_err_$$
 if [ "$res_apply" != ok ]; then echo "$pid-$i apply=$res_apply"; exit 1; fi
 tests=$(PYTHONPATH="$wt/src" timeout 600 /venv/bin/python -m pytest -q -p no:cacheprovider 2>&1 | tail -1)
 PYTHONPATH="$wt/src" timeout 120 /venv/bin/python "$src/demo.py" >/tmp/demo_with_$$ 2>&1; rc_with=$?
 if grep -q "^def test_" "$src/demo.py" && [ $rc_with -eq 0 ]; then PYTHONPATH="$wt/src" timeout 120 /venv/bin/python -m pytest -q -p no:cacheprovider "$src/demo.py" >/tmp/demo_with_$$ 2>&1; rc_with=$?; fi
-git checkout -q -- src
+git checkout -q -- src; git reset -q --hard HEAD
 PYTHONPATH="$wt/src" timeout 120 /venv/bin/python "$src/demo.py" >/tmp/demo_without_$$ 2>&1; rc_without=$?
 if grep -q "^def test_" "$src/demo.py"; then PYTHONPATH="$wt/src" timeout 120 /venv/bin/python -m pytest -q -p no:cacheprovider "$src/demo.py" >/tmp/demo_without_$$ 2>&1; rc_without=$?; fi
 rm -f /tmp/demo_with_$$ /tmp/demo_without_$$
@@ -27,7 +30,8 @@ echo "$pid-$i apply=ok tests_pass=$t_ok demo_with_patch_rc=$rc_with demo_without
 if [ "$ok" = yes ]; then
   dst="/verif/seeded/${pid}-${i}"
   mkdir -p "$dst"
-  cp "$src/patch.diff" "$dst/patch.diff"; cp "$src/demo.py" "$dst/demo.py"
+  cp /tmp/rebased_$$.diff "$dst/patch.diff"; cp "$src/demo.py" "$dst/demo.py"
+  if ! diff -q <(grep -v '^index ' "$src/patch.diff") <(grep -v '^index ' "$dst/patch.diff") >/dev/null; then cp "$src/patch.diff" "$dst/patch.orig.diff"; fi
   /venv/bin/python - "$src/meta.json" "$dst/meta.json" "$tests" <<'PY'
 import json, sys
 try:
